@@ -361,8 +361,15 @@ func widenSpaces(rt *rapid.T, q string) string {
 			if oddEverywhere || rapid.IntRange(0, 15).Draw(rt, "oddBlank") == 0 {
 				// a blank the documentation does not mention, behind a space
 				// and in front of the next token
-				sb.WriteByte(ch)
-				sb.WriteString(rapid.SampledFrom([]string{"\f", "\v", "\u00a0", "\u3000"}).Draw(rt, "oddBlankRune"))
+				odd := rapid.SampledFrom([]string{"\f", "\v", "\u00a0", "\u3000"}).Draw(rt, "oddBlankRune")
+				if rapid.Bool().Draw(rt, "oddBlankBehindToken") {
+					// glued to the token in front of the space instead
+					sb.WriteString(odd)
+					sb.WriteByte(ch)
+				} else {
+					sb.WriteByte(ch)
+					sb.WriteString(odd)
+				}
 				continue
 			}
 		}
